@@ -48,7 +48,7 @@ Definition set_eqb (a b:list idx) : bool :=
 Fixpoint err_eqb (a b:err) : bool :=
   match a, b with
   | EReadFail x, EReadFail y | ESyntax x, ESyntax y | EDetect x, EDetect y | EConvert x, EConvert y
-  | EAmbiguous x, EAmbiguous y | EJson x, EJson y | EPbDecode x, EPbDecode y => N.eqb x y
+  | EAmbiguous x, EAmbiguous y | EJson x, EJson y | EPbDecode x, EPbDecode y | EMerge x, EMerge y => N.eqb x y
   | EWrap p x, EWrap q y => N.eqb p q && err_eqb x y
   | _, _ => false
   end.
